@@ -85,6 +85,11 @@ def recursion_ir(pkg="com.palantir.rec"):
         ir.object_("UseCycA", [ir.field("a", R("CycA"))], package=pkg),
         ir.object_("UseCycB", [ir.field("b", ir.optional(R("CycB")))], package=pkg),
         ir.union_("UseCycC", [ir.field("c", R("CycC")), ir.field("i", P("INTEGER"))], package=pkg),
+        # the same pattern across packages (generation order between packages must not matter)
+        ir.object_("Holder", [ir.field("node", ir.ref("Node", pkg + ".graph"))], package=pkg + ".store"),
+        ir.object_("Node", [ir.field("peer", ir.optional(ir.ref("Peer", pkg + ".graph")))], package=pkg + ".graph"),
+        ir.object_("Peer", [ir.field("node", ir.optional(ir.ref("Node", pkg + ".graph"))), ir.field("weight", P("DOUBLE"))], package=pkg + ".graph"),
+        ir.object_("PeerHolder", [ir.field("peers", ir.list_(ir.ref("Peer", pkg + ".graph"))), ir.field("h", ir.optional(ir.ref("Holder", pkg + ".store")))], package=pkg + ".audit"),
         ir.union_("EmptyUnion", [], package=pkg),
         ir.object_("EmptyObject", [], package=pkg),
         ir.object_("AllPrims", [ir.field(n.lower() + "F", P(n)) for n in ("STRING", "INTEGER", "SAFELONG", "DOUBLE", "BOOLEAN", "UUID", "RID", "BEARERTOKEN", "DATETIME", "BINARY", "ANY")]
